@@ -554,14 +554,18 @@ func (s *raceSys) apply(r *ref, o *opRec) bool {
 	return true
 }
 
-// linearize searches for one order of all calls that explains every observation and the final state; it returns the
-// reference state at the end of that order (nil: there is none).
-func (s *raceSys) linearize(start *ref, progs [][]*opRec, final string) *ref {
+// linearize searches for the orders of all calls that explain every observation (and the final state, if the white-box
+// view gives one); it returns the distinct reference states at the end of such orders (none: not linearizable).
+func (s *raceSys) linearize(starts []*ref, progs [][]*opRec, final string) []*ref {
 	idx := make([]int, len(progs))
 	visited := map[string]bool{}
-	var found *ref
-	var dfs func(r *ref) bool
-	dfs = func(r *ref) bool {
+	finals := map[string]*ref{}
+	var dfs func(r *ref)
+	dfs = func(r *ref) {
+		if len(finals) >= 64 {
+			return
+		}
+		d := r.dump(true)
 		done := true
 		for g := range progs {
 			if idx[g] < len(progs[g]) {
@@ -569,15 +573,14 @@ func (s *raceSys) linearize(start *ref, progs [][]*opRec, final string) *ref {
 			}
 		}
 		if done {
-			if final == "" || r.dump(true) == final {
-				found = r
-				return true
+			if final == "" || d == final {
+				finals[d] = r
 			}
-			return false
+			return
 		}
-		key := fmt.Sprint(idx) + r.dump(true)
+		key := fmt.Sprint(idx) + d
 		if visited[key] {
-			return false
+			return
 		}
 		visited[key] = true
 		for g := range progs {
@@ -599,15 +602,21 @@ func (s *raceSys) linearize(start *ref, progs [][]*opRec, final string) *ref {
 				continue
 			}
 			idx[g]++
-			if dfs(r2) {
-				return true
-			}
+			dfs(r2)
 			idx[g]--
+			if final != "" && len(finals) > 0 {
+				return // the final state is known and explained: one order is enough
+			}
 		}
-		return false
 	}
-	dfs(start)
-	return found
+	for _, st := range starts {
+		dfs(st)
+	}
+	out := make([]*ref, 0, len(finals))
+	for _, r := range finals {
+		out = append(out, r)
+	}
+	return out
 }
 
 func (raceArea) Run(line string) string {
@@ -631,31 +640,33 @@ func (raceArea) Run(line string) string {
 func raceRun(seed uint64, g, rounds int) (out string) {
 	s := newRaceSys()
 	r := hx.NewRng(seed)
-	cur := newRef()
+	cands := []*ref{newRef()} // the reference states the real registry may be in (exactly one with the white-box view)
 	var escaped atomic.Int64
 	overlaps := 0
 	// ---- linearizability rounds
 	for round := 0; round < rounds; round++ {
-		if got := wbDump(s.n, s.idOf); s.wb && got != cur.dump(true) {
-			return fmt.Sprintf("FAIL round %d starts from %s, reference %s", round, got, cur.dump(true))
+		if got := wbDump(s.n, s.idOf); s.wb && got != cands[0].dump(true) {
+			return fmt.Sprintf("FAIL round %d starts from %s, reference %s", round, got, cands[0].dump(true))
 		}
 		batchRound := round%3 == 2
-		if batchRound { // start from a state in which the batch bookkeeping matters: enabled, a batch target, level <= 1
-			var fix []*opRec
-			if !cur.enabled {
-				fix = append(fix, &opRec{kind: "enable", flag: true})
-			}
-			if len(cur.batch) == 0 {
-				fix = append(fix, &opRec{kind: "reg", t: 1, prio: 0, names: []string{"a"}}, &opRec{kind: "reg", t: 4, prio: 0, names: []string{"a"}})
-			}
-			for l := cur.level; l > 1; l-- {
+		if batchRound { // start from a state in which the batch bookkeeping matters: enabled, batch targets, level <= 1
+			fix := []*opRec{{kind: "enable", flag: true}, {kind: "reg", t: 1, prio: 0, names: []string{"a"}},
+				{kind: "reg", t: 4, prio: 0, names: []string{"a"}}}
+			for l := s.n.BatchLevel(); l > 1; l-- {
 				fix = append(fix, &opRec{kind: "end"})
 			}
 			for _, o := range fix {
 				s.exec(o)
-				if !s.apply(cur, o) {
+				var keep []*ref
+				for _, c := range cands {
+					if s.apply(c, o) {
+						keep = append(keep, c)
+					}
+				}
+				if len(keep) == 0 {
 					return fmt.Sprintf("FAIL round %d: sequential %s disagrees with the reference", round, o)
 				}
+				cands = keep
 			}
 		}
 		ng := g
@@ -700,8 +711,8 @@ func raceRun(seed uint64, g, rounds int) (out string) {
 			return fmt.Sprintf("FAIL round %d: a panic escaped the notifier", round)
 		}
 		final := wbDump(s.n, s.idOf) // "" without the white-box view: only the observations are explained
-		next := s.linearize(cur, progs, final)
-		if next == nil {
+		next := s.linearize(cands, progs, final)
+		if len(next) == 0 {
 			var sb strings.Builder
 			for k, p := range progs {
 				fmt.Fprintf(&sb, " g%d:", k)
@@ -709,7 +720,7 @@ func raceRun(seed uint64, g, rounds int) (out string) {
 					sb.WriteString(" " + o.String())
 				}
 			}
-			return fmt.Sprintf("FAIL round %d not linearizable: from %s;%s; final %s", round, cur.dump(true), sb.String(), final)
+			return fmt.Sprintf("FAIL round %d not linearizable: from %s;%s; final %s", round, cands[0].dump(true), sb.String(), final)
 		}
 		for a := range progs {
 			for b := range progs {
@@ -718,7 +729,7 @@ func raceRun(seed uint64, g, rounds int) (out string) {
 				}
 			}
 		}
-		cur = next // the next round starts from the real state (the final dump was compared)
+		cands = next // with the white-box view: the one state equal to the real registry
 	}
 	// ---- free-running phase: StartBatch/EndBatch in any order from all goroutines (no Reset, no SetEnabled); every
 	// outermost start broadcasts true to a snapshot and the end that brings the level back to 0 broadcasts false to the
